@@ -11,7 +11,9 @@ from .common import Bounded, build_arch, pmap, outcome
 DECLS = ["[{n}]", "component {n}", "component [{n}]", "[{n}] as {a}", "component [{n}] as {a}", "component {n} as {a}", None]
 ARROWS_R = ["-->", "->", "-uses->", "-up->"]
 ARROWS_L = ["<--", "<-", "<-uses-", "<-down-"]
-NOISE = ["This text is ignored", "' a comment", "title Demo [x] --> [y]"]
+NOISE = ["This text is ignored", "' a comment", "title Demo [x] --> [y]",
+         # lines that would be perfectly good diagram lines INSIDE the tags (seed C06n: arrows outside the tags were parsed)
+         "legacy --> removed", "[old] -> [gone]", "ghost <-- phantom", "stale -uses-> nothing", "component zombie", "[zombie2] as z", "component [undead] as u"]
 
 
 def gen_diagram(rng, names, relation, dotted=False):
